@@ -620,11 +620,24 @@ def qcow2_snapshots(ctx, rng, nsets):
     sts = [s for s in diskprop.dump_states(ctx, "Qcow2", "Qcow2_img.cfg")
            if not s["img"]["datafile"] and s["img"]["back"] == -1 and s["img"]["size"] == 8 and all(s["img"]["l1"].values())]
     inter = [s for s in sts if disk.view_features(disk.norm_view(s["view"]))["discontinuous"]]
+    # snapshots taken before the disk was grown: their L1 table is shorter than the active one
+    short = [s for s in diskprop.dump_states(ctx, "Qcow2", "Qcow2_img.cfg")
+             if not s["img"]["datafile"] and s["img"]["back"] == -1 and s["img"]["size"] == 8 and s["img"]["l1"][0] and not s["img"]["l1"][1]
+             and disk.view_features(disk.norm_view(s["view"]))["discontinuous"]]
     for k in range(nsets):
         picks = rng.sample(inter, 3)
         cb, K = 9, 32
-        vf, infos = enc_qcow2.build_with_snapshots(picks[0]["img"], [p["img"] for p in picks[1:]], cluster_bits=cb, K=K,
+        snap_imgs = [p["img"] for p in picks[1:]]
+        if k % 2 and short:
+            sp = rng.choice(short)
+            picks[2] = sp
+            i2 = sp["img"]
+            l2n = i2["l2n"]
+            snap_imgs[1] = {**i2, "l1": {0: True}, "l2": {c: i2["l2"][c] for c in range(l2n)}, "size": l2n * i2["s"]}
+        vf, infos = enc_qcow2.build_with_snapshots(picks[0]["img"], snap_imgs, cluster_bits=cb, K=K, l1_garbage=True,
                                                    snap_meta=[("1", "first", 16), ("2", "zweite-✓", 24)])
+        for inf in infos:
+            inf["size"] = infos[0]["size"]   # the snapshot view is read over the active image's size; beyond its own L1 it is unallocated
         views = [disk.norm_view(p["view"]) for p in picks]
         cs = 1 << cb
 
